@@ -258,7 +258,7 @@ type gLimits struct{ rows, bytes, fileSize, files int }
 // gChooseLimits picks merge limits that matter for this population: at, one below, or
 // around sums of real block shapes and file sizes.
 func (c *Ctx) gChooseLimits(s *gSnap) gLimits {
-	l := gLimits{rows: 2 + c.intn(11), bytes: 150 + c.intn(2400), fileSize: 1 << 40, files: 2 + c.intn(5)}
+	l := gLimits{rows: 2 + c.intn(19), bytes: 150 + c.intn(3400), fileSize: 1 << 40, files: 2 + c.intn(9)}
 	// pairs of same-key blocks
 	type pair struct{ a, b *gBlock }
 	var pairs []pair
@@ -550,6 +550,21 @@ func gCheckMerge(c *Ctx, sh11, sh12 *shard, pop *gPop, before, after *gSnap, cfg
 			}
 		}
 	}
+	maxSrcs, splitKeys := 0, 0
+	for _, g := range groups {
+		perKey := map[string]int{}
+		for _, ob := range g.blocks {
+			maxSrcs = max(maxSrcs, len(ob.srcs))
+			perKey[bs.VerifBlockMergeKey(&ob.srcs[0].meta)]++
+		}
+		for _, n := range perKey {
+			if n > 1 {
+				splitKeys++ // same-key blocks that the limits kept apart
+			}
+		}
+	}
+	c.dist("g_max_sources_per_block", fmt.Sprint(min(maxSrcs, 6)))
+	c.dist("g_keys_split_by_limits", fmt.Sprint(min(splitKeys, 4)))
 	c.dist("g_groups", fmt.Sprint(len(groups)))
 	c.dist("g_blocks", fmt.Sprintf("combined=%d", min(combined, 5)))
 	c.dist("g_blocks_copied", fmt.Sprint(min(copied, 6)))
